@@ -803,3 +803,105 @@ Proof.
   - apply N.eqb_eq in E0. subst sid. reflexivity.
   - cbn [orb] in Hsig. destruct so; [reflexivity|discriminate].
 Qed.
+
+(* nothing may follow the certificate *)
+Theorem parse_cert_trailing : forall o d x r, len_ok (length (cert_body d)) = true ->
+  parse_certificate_der o (cert_enc d ++ x :: r) = None.
+Proof.
+  intros o d x r L. unfold parse_certificate_der, cert_enc. rewrite cb_read_enc; [reflexivity|reflexivity|exact L].
+Qed.
+
+(* ================================================================== *)
+(* H. the report, from the octets                                      *)
+(* ================================================================== *)
+Theorem octets_exactly_expected : forall o d, der_ok o d -> enc_ok (abstract o d) = true ->
+  describe_der o (cert_enc d) = Some (expected_info (abstract o d)).
+Proof.
+  intros o d Hd He. unfold describe_der. rewrite parse_cert_enc by exact Hd.
+  rewrite describe_expected by exact He. reflexivity.
+Qed.
+
+Theorem octets_faithful : forall o d, der_ok o d -> enc_ok (abstract o d) = true ->
+  match describe_der o (cert_enc d) with Some i => read_back i | None => None end =
+  Some (canonical_view (abstract o d)).
+Proof.
+  intros o d Hd He. rewrite octets_exactly_expected by assumption. apply read_back_expected. exact He.
+Qed.
+
+(* ---------- a written certificate that uses every modelled part, and its octets ---------- *)
+Definition ex_sigalg : bytes := [6; 3; 43; 101; 112].                                  (* id-Ed25519 *)
+Definition ex_issuer : bytes := [49; 19; 48; 17; 6; 3; 85; 4; 3; 19; 10; 69; 120; 97; 109; 112; 108; 101; 32; 67; 65].
+Definition ex_subject : bytes :=
+  [49; 21; 48; 19; 6; 3; 85; 4; 3; 19; 12; 108; 101; 97; 102; 46; 101; 120; 97; 109; 112; 108; 101].
+Definition ex_spki : bytes :=
+  [48; 5; 6; 3; 43; 101; 112; 3; 33; 0] ++ repeat 7 32.
+Definition ex_oracles : oracles :=
+  {| o_name := fun b => if bytes_eqb b ex_issuer then Some (bs "CN=Example CA")
+                        else if bytes_eqb b ex_subject then Some (bs "CN=leaf.example") else None;
+     o_spki := fun b => if bytes_eqb b ex_spki then Some (SBare [1; 3; 101; 112]) else None;
+     o_sig := fun b => if bytes_eqb b ex_sigalg then Some (16, []) else None;
+     o_uri := fun b => Some b;
+     o_ext := fun _ _ _ => true;
+     o_negative_serial := true |}.
+Definition example_der : der_cert :=
+  {| d_version := Some 2;
+     d_serial := [0; 200; 1];
+     d_sigalg := ex_sigalg; d_issuer := ex_issuer;
+     d_not_before := TUtc 49 12 31 23 59 59;            (* 2049-12-31 *)
+     d_not_after := TGen 2050 1 1 0 0 0;
+     d_subject := ex_subject; d_spki := ex_spki;
+     d_exts := Some [
+       (None, XSan [(135, [192; 0; 2; 1]); (130, bs "a.example"); (160, [6; 1; 42; 160; 1; 5]);
+                    (129, bs "x@a.example"); (134, bs "https://a.example/p?q=1#f");
+                    (135, [32; 1; 13; 184; 0; 0; 0; 0; 0; 1; 0; 0; 0; 0; 0; 1])]);
+       (Some true, XKu 1 [134]);                          (* digitalSignature, keyCertSign, cRLSign; 7 bits *)
+       (None, XOther [1; 3; 6; 1; 4; 1; 99999; 1] [12; 4; 110; 111; 116; 101]);
+       (Some true, XBc (Some true) (Some [0]));           (* cA TRUE, pathLenConstraint 0 *)
+       (Some false, XEku [[1; 2; 3; 4]; [1; 3; 6; 1; 5; 5; 7; 3; 1]; [2; 999; 1]]);
+       (None, XSki [3; 222; 80; 53]);
+       (None, XAki (Some [10; 188]) [130; 1; 5])];
+     d_signature := repeat 170 64 |}.
+
+Example example_der_ok : der_ok ex_oracles example_der.
+Proof.
+  unfold der_ok. repeat split; try (vm_compute; reflexivity); try discriminate; try (vm_compute; lia);
+    try (cbn; lia); try (vm_compute; intuition congruence).
+Qed.
+
+Example example_der_abstract :
+  abstract ex_oracles example_der =
+  {| e_version := 3; e_serial := 51201; e_subject := bs "CN=leaf.example"; e_issuer := bs "CN=Example CA";
+     e_not_before := 2524607999; e_not_after := 2524608000; e_spki := SBare [1; 3; 101; 112];
+     e_basic := Some (true, Some 0%Z);
+     e_key_usage := Some [true; false; false; false; false; true; true];
+     e_ekus := Some [[1; 2; 3; 4]; [1; 3; 6; 1; 5; 5; 7; 3; 1]; [2; 999; 1]];
+     e_sans := Some [GN 7 [192; 0; 2; 1]; GN 2 (bs "a.example"); GN 416 [6; 1; 42; 160; 1; 5];
+                     GN 1 (bs "x@a.example"); GN 6 (bs "https://a.example/p?q=1#f");
+                     GN 7 [32; 1; 13; 184; 0; 0; 0; 0; 0; 1; 0; 0; 0; 0; 0; 1]];
+     e_ski := Some [3; 222; 80; 53]; e_aki := Some [10; 188];
+     e_sig := SigKnown 16 |}.
+Proof. vm_compute. reflexivity. Qed.
+
+Example example_der_enc_ok : enc_ok (abstract ex_oracles example_der) = true.
+Proof. vm_compute. reflexivity. Qed.
+
+(* the octets [cert_enc] writes for it; the harness hands exactly these to crypto/x509 and to the tool
+   (cases der:coq-encoded / derinspect:coq-encoded), so the writer itself is tied to the library *)
+Example example_der_octets : cert_enc example_der = unhex (bs "308201bd3082016fa003020102020300c801300506032b65703015311330110603550403130a4578616d706c652043413020170d3439313233313233353935395a180f32303530303130313030303030305a3017311530130603550403130c6c6561662e6578616d706c65302a300506032b65700321000707070707070707070707070707070707070707070707070707070707070707a381dd3081da305c0603551d11045530538704c00002018209612e6578616d706c65a00606012aa00105810b7840612e6578616d706c65861968747470733a2f2f612e6578616d706c652f703f713d312366871020010db8000000000001000000000001300e0603551d0f0101ff040403020186301306092b06010401868d1f0104060c046e6f746530120603551d130101ff040830060101ff02010030200603551d250101000416301406032a030406082b060105050703010603883701300d0603551d0e0406040403de503530100603551d230409300780020abc820105300506032b6570034100aaaaaaaaaaaaaaaaaaaaaaaaaaaaaaaaaaaaaaaaaaaaaaaaaaaaaaaaaaaaaaaaaaaaaaaaaaaaaaaaaaaaaaaaaaaaaaaaaaaaaaaaaaaaaaaaaaaaaaaaaaaaaaaa").
+Proof. vm_compute. reflexivity. Qed.
+
+Example example_der_shown :
+  option_map i_attrs (describe_der ex_oracles (cert_enc example_der)) = Some [
+  (bs "Serial", bs "51201");
+  (bs "Subject", bs "CN=leaf.example");
+  (bs "Subject key id", bs "03de5035");
+  (bs "Issuer", bs "CN=Example CA");
+  (bs "Authority key id", bs "0abc");
+  (bs "Not before", bs "2049-12-31");
+  (bs "Not after", bs "2050-01-01");
+  (bs "Key usage", bs "digitalSignature, certSign, cRLSign");
+  (bs "Extended key usage", bs "serverAuth, 1.2.3.4, 2.999.1");
+  (bs "Max path length", bs "0");
+  (bs "SANs", bs "a.example, 192.0.2.1, 2001:db8::1:0:0:1, https://a.example/p?q=1#f, x@a.example");
+  (bs "Signature algorithm", bs "Ed25519")].
+Proof. vm_compute. reflexivity. Qed.
